@@ -294,7 +294,12 @@ func planScreen(rng *rand.Rand, nops int, w, h int, mix string, rich bool, hasCa
 		case k < 74:
 			add(sop{Op: "SetStyle", St: tcx.RandStyle(rng, rich, false)})
 		case k < 79:
-			add(sop{Op: "ShowCursor", X: rng.Intn(cw+2) - 1, Y: rng.Intn(ch+2) - 1})
+			cx, cy := rng.Intn(cw+2)-1, rng.Intn(ch+2)-1
+			if rng.Intn(4) == 0 { // further off the screen, on one side or both
+				cx = []int{-5, -2, -1, cw + 3, rng.Intn(cw)}[rng.Intn(5)]
+				cy = []int{-7, -2, -1, ch + 2, rng.Intn(ch)}[rng.Intn(5)]
+			}
+			add(sop{Op: "ShowCursor", X: cx, Y: cy})
 		case k < 80:
 			add(sop{Op: "HideCursor"})
 		case k < 82:
@@ -330,7 +335,16 @@ func planScreen(rng *rand.Rand, nops int, w, h int, mix string, rich bool, hasCa
 				add(setc())
 				continue
 			}
-			switch rng.Intn(16) {
+			switch rng.Intn(17) {
+			case 16:
+				// a cursor shape is shown, then the default shape is asked for but never shown before the screen is
+				// suspended: the terminal still has the shape that was sent, and the exit must reset it
+				add(sop{Op: "ShowCursor", X: rng.Intn(cw), Y: rng.Intn(ch)})
+				add(sop{Op: "SetCursorStyle", N: 1 + rng.Intn(6), B: true})
+				add(sop{Op: "Show"})
+				add(sop{Op: "SetCursorStyle", N: 0, B: true})
+				add(sop{Op: "Suspend"})
+				running = false
 			case 15:
 				add(sop{Op: "Resume"}) // not suspended: nothing may happen
 			case 14:
